@@ -455,7 +455,7 @@ BaseShapes(name) == CASE name = "wide" -> { <<97, 10>>, <<10>>, <<32, 32, 10>>, 
             [] name = "fullE" -> { <<97, 32, 42, 98, 10>>, <<99, 42, 10>>, <<61, 61, 61, 10>>, <<45, 45, 45, 10>>, <<96, 96, 96, 10>>, <<91, 120, 93, 40, 47, 117, 10>>, <<41, 10>>, <<35, 32, 104, 10>>, <<49, 46, 32, 105, 10>>, <<45, 32, 106, 10>>, <<62, 32, 113, 10>>, <<32, 32, 32, 107, 10>>, <<32, 32, 32, 32, 109, 10>>, <<62, 32, 97, 32, 42, 98, 10>>, <<62, 32, 99, 42, 10>>, <<62, 32, 61, 61, 61, 10>>, <<62, 32, 45, 45, 45, 10>>, <<62, 32, 96, 96, 96, 10>>, <<62, 32, 91, 120, 93, 40, 47, 117, 10>>, <<62, 32, 41, 10>>, <<62, 32, 35, 32, 104, 10>>, <<62, 32, 49, 46, 32, 105, 10>>, <<62, 32, 45, 32, 106, 10>>, <<62, 32, 62, 32, 113, 10>>, <<62, 32, 32, 32, 32, 107, 10>>, <<62, 32, 32, 32, 32, 32, 109, 10>>, <<45, 32, 97, 32, 42, 98, 10>>, <<45, 32, 99, 42, 10>>, <<45, 32, 61, 61, 61, 10>>, <<45, 32, 45, 45, 45, 10>>, <<45, 32, 96, 96, 96, 10>>, <<45, 32, 91, 120, 93, 40, 47, 117, 10>>, <<45, 32, 41, 10>>, <<45, 32, 35, 32, 104, 10>>, <<45, 32, 49, 46, 32, 105, 10>>, <<45, 32, 45, 32, 106, 10>>, <<45, 32, 62, 32, 113, 10>>, <<45, 32, 32, 32, 32, 107, 10>>, <<45, 32, 32, 32, 32, 32, 109, 10>>, <<49, 46, 32, 97, 32, 42, 98, 10>>, <<49, 46, 32, 99, 42, 10>>, <<49, 46, 32, 61, 61, 61, 10>>, <<49, 46, 32, 45, 45, 45, 10>>, <<49, 46, 32, 96, 96, 96, 10>>, <<49, 46, 32, 91, 120, 93, 40, 47, 117, 10>>, <<49, 46, 32, 41, 10>>, <<49, 46, 32, 35, 32, 104, 10>>, <<49, 46, 32, 49, 46, 32, 105, 10>>, <<49, 46, 32, 45, 32, 106, 10>>, <<49, 46, 32, 62, 32, 113, 10>>, <<49, 46, 32, 32, 32, 32, 107, 10>>, <<49, 46, 32, 32, 32, 32, 32, 109, 10>>, <<32, 32, 32, 97, 32, 42, 98, 10>>, <<32, 32, 32, 99, 42, 10>>, <<32, 32, 32, 61, 61, 61, 10>>, <<32, 32, 32, 45, 45, 45, 10>>, <<32, 32, 32, 96, 96, 96, 10>>, <<32, 32, 32, 91, 120, 93, 40, 47, 117, 10>>, <<32, 32, 32, 41, 10>>, <<32, 32, 32, 35, 32, 104, 10>>, <<32, 32, 32, 49, 46, 32, 105, 10>>, <<32, 32, 32, 45, 32, 106, 10>>, <<32, 32, 32, 62, 32, 113, 10>>, <<32, 32, 32, 32, 32, 32, 107, 10>>, <<32, 32, 32, 32, 32, 32, 32, 109, 10>>, <<62, 32, 45, 32, 97, 32, 42, 98, 10>>, <<62, 32, 45, 32, 99, 42, 10>>, <<62, 32, 45, 32, 61, 61, 61, 10>>, <<62, 32, 45, 32, 45, 45, 45, 10>>, <<62, 32, 45, 32, 96, 96, 96, 10>>, <<62, 32, 45, 32, 91, 120, 93, 40, 47, 117, 10>>, <<62, 32, 45, 32, 41, 10>>, <<62, 32, 45, 32, 35, 32, 104, 10>>, <<62, 32, 45, 32, 49, 46, 32, 105, 10>>, <<62, 32, 45, 32, 45, 32, 106, 10>>, <<62, 32, 45, 32, 62, 32, 113, 10>>, <<62, 32, 45, 32, 32, 32, 32, 107, 10>>, <<62, 32, 45, 32, 32, 32, 32, 32, 109, 10>>, <<32, 32, 62, 32, 97, 32, 42, 98, 10>>, <<32, 32, 62, 32, 99, 42, 10>>, <<32, 32, 62, 32, 61, 61, 61, 10>>, <<32, 32, 62, 32, 45, 45, 45, 10>>, <<32, 32, 62, 32, 96, 96, 96, 10>>, <<32, 32, 62, 32, 91, 120, 93, 40, 47, 117, 10>>, <<32, 32, 62, 32, 41, 10>>, <<32, 32, 62, 32, 35, 32, 104, 10>>, <<32, 32, 62, 32, 49, 46, 32, 105, 10>>, <<32, 32, 62, 32, 45, 32, 106, 10>>, <<32, 32, 62, 32, 62, 32, 113, 10>>, <<32, 32, 62, 32, 32, 32, 32, 107, 10>>, <<32, 32, 62, 32, 32, 32, 32, 32, 109, 10>>, <<10>>, <<62, 10>> }
             [] name = "fullD" -> { <<97, 32, 42, 98, 10>>, <<99, 42, 10>>, <<96, 99, 10>>, <<100, 96, 10>>, <<91, 120, 93, 40, 47, 117, 10>>, <<39, 116, 39, 41, 10>>, <<97, 92, 10>>, <<98, 32, 32, 10>>, <<91, 120, 93, 91, 97, 10>>, <<98, 93, 10>>, <<91, 97, 10>>, <<98, 93, 58, 32, 47, 117, 10>>, <<62, 9, 97, 32, 42, 98, 10>>, <<62, 9, 99, 42, 10>>, <<62, 9, 96, 99, 10>>, <<62, 9, 100, 96, 10>>, <<62, 9, 91, 120, 93, 40, 47, 117, 10>>, <<62, 9, 39, 116, 39, 41, 10>>, <<62, 9, 97, 92, 10>>, <<62, 9, 98, 32, 32, 10>>, <<62, 9, 91, 120, 93, 91, 97, 10>>, <<62, 9, 98, 93, 10>>, <<62, 9, 91, 97, 10>>, <<62, 9, 98, 93, 58, 32, 47, 117, 10>>, <<45, 9, 97, 32, 42, 98, 10>>, <<45, 9, 99, 42, 10>>, <<45, 9, 96, 99, 10>>, <<45, 9, 100, 96, 10>>, <<45, 9, 91, 120, 93, 40, 47, 117, 10>>, <<45, 9, 39, 116, 39, 41, 10>>, <<45, 9, 97, 92, 10>>, <<45, 9, 98, 32, 32, 10>>, <<45, 9, 91, 120, 93, 91, 97, 10>>, <<45, 9, 98, 93, 10>>, <<45, 9, 91, 97, 10>>, <<45, 9, 98, 93, 58, 32, 47, 117, 10>>, <<9, 97, 32, 42, 98, 10>>, <<9, 99, 42, 10>>, <<9, 96, 99, 10>>, <<9, 100, 96, 10>>, <<9, 91, 120, 93, 40, 47, 117, 10>>, <<9, 39, 116, 39, 41, 10>>, <<9, 97, 92, 10>>, <<9, 98, 32, 32, 10>>, <<9, 91, 120, 93, 91, 97, 10>>, <<9, 98, 93, 10>>, <<9, 91, 97, 10>>, <<9, 98, 93, 58, 32, 47, 117, 10>>, <<32, 9, 97, 32, 42, 98, 10>>, <<32, 9, 99, 42, 10>>, <<32, 9, 96, 99, 10>>, <<32, 9, 100, 96, 10>>, <<32, 9, 91, 120, 93, 40, 47, 117, 10>>, <<32, 9, 39, 116, 39, 41, 10>>, <<32, 9, 97, 92, 10>>, <<32, 9, 98, 32, 32, 10>>, <<32, 9, 91, 120, 93, 91, 97, 10>>, <<32, 9, 98, 93, 10>>, <<32, 9, 91, 97, 10>>, <<32, 9, 98, 93, 58, 32, 47, 117, 10>>, <<62, 32, 97, 32, 42, 98, 10>>, <<62, 32, 99, 42, 10>>, <<62, 32, 96, 99, 10>>, <<62, 32, 100, 96, 10>>, <<62, 32, 91, 120, 93, 40, 47, 117, 10>>, <<62, 32, 39, 116, 39, 41, 10>>, <<62, 32, 97, 92, 10>>, <<62, 32, 98, 32, 32, 10>>, <<62, 32, 91, 120, 93, 91, 97, 10>>, <<62, 32, 98, 93, 10>>, <<62, 32, 91, 97, 10>>, <<62, 32, 98, 93, 58, 32, 47, 117, 10>>, <<10>> }
             [] name = "fullH" -> { <<97, 32, 42, 98, 10>>, <<99, 42, 10>>, <<60, 33, 45, 45, 32, 99, 32, 45, 45, 62, 10>>, <<60, 112, 114, 101, 62, 10>>, <<120, 60, 47, 112, 114, 101, 62, 10>>, <<60, 63, 112, 104, 112, 10>>, <<121, 32, 63, 62, 10>>, <<60, 100, 105, 118, 62, 10>>, <<60, 47, 100, 105, 118, 62, 10>>, <<122, 10>>, <<62, 9, 97, 32, 42, 98, 10>>, <<62, 9, 99, 42, 10>>, <<62, 9, 60, 33, 45, 45, 32, 99, 32, 45, 45, 62, 10>>, <<62, 9, 60, 112, 114, 101, 62, 10>>, <<62, 9, 120, 60, 47, 112, 114, 101, 62, 10>>, <<62, 9, 60, 63, 112, 104, 112, 10>>, <<62, 9, 121, 32, 63, 62, 10>>, <<62, 9, 60, 100, 105, 118, 62, 10>>, <<62, 9, 60, 47, 100, 105, 118, 62, 10>>, <<62, 9, 122, 10>>, <<45, 9, 97, 32, 42, 98, 10>>, <<45, 9, 99, 42, 10>>, <<45, 9, 60, 33, 45, 45, 32, 99, 32, 45, 45, 62, 10>>, <<45, 9, 60, 112, 114, 101, 62, 10>>, <<45, 9, 120, 60, 47, 112, 114, 101, 62, 10>>, <<45, 9, 60, 63, 112, 104, 112, 10>>, <<45, 9, 121, 32, 63, 62, 10>>, <<45, 9, 60, 100, 105, 118, 62, 10>>, <<45, 9, 60, 47, 100, 105, 118, 62, 10>>, <<45, 9, 122, 10>>, <<9, 97, 32, 42, 98, 10>>, <<9, 99, 42, 10>>, <<9, 60, 33, 45, 45, 32, 99, 32, 45, 45, 62, 10>>, <<9, 60, 112, 114, 101, 62, 10>>, <<9, 120, 60, 47, 112, 114, 101, 62, 10>>, <<9, 60, 63, 112, 104, 112, 10>>, <<9, 121, 32, 63, 62, 10>>, <<9, 60, 100, 105, 118, 62, 10>>, <<9, 60, 47, 100, 105, 118, 62, 10>>, <<9, 122, 10>>, <<32, 9, 97, 32, 42, 98, 10>>, <<32, 9, 99, 42, 10>>, <<32, 9, 60, 33, 45, 45, 32, 99, 32, 45, 45, 62, 10>>, <<32, 9, 60, 112, 114, 101, 62, 10>>, <<32, 9, 120, 60, 47, 112, 114, 101, 62, 10>>, <<32, 9, 60, 63, 112, 104, 112, 10>>, <<32, 9, 121, 32, 63, 62, 10>>, <<32, 9, 60, 100, 105, 118, 62, 10>>, <<32, 9, 60, 47, 100, 105, 118, 62, 10>>, <<32, 9, 122, 10>>, <<62, 32, 97, 32, 42, 98, 10>>, <<62, 32, 99, 42, 10>>, <<62, 32, 60, 33, 45, 45, 32, 99, 32, 45, 45, 62, 10>>, <<62, 32, 60, 112, 114, 101, 62, 10>>, <<62, 32, 120, 60, 47, 112, 114, 101, 62, 10>>, <<62, 32, 60, 63, 112, 104, 112, 10>>, <<62, 32, 121, 32, 63, 62, 10>>, <<62, 32, 60, 100, 105, 118, 62, 10>>, <<62, 32, 60, 47, 100, 105, 118, 62, 10>>, <<62, 32, 122, 10>>, <<32, 32, 97, 32, 42, 98, 10>>, <<32, 32, 99, 42, 10>>, <<32, 32, 60, 33, 45, 45, 32, 99, 32, 45, 45, 62, 10>>, <<32, 32, 60, 112, 114, 101, 62, 10>>, <<32, 32, 120, 60, 47, 112, 114, 101, 62, 10>>, <<32, 32, 60, 63, 112, 104, 112, 10>>, <<32, 32, 121, 32, 63, 62, 10>>, <<32, 32, 60, 100, 105, 118, 62, 10>>, <<32, 32, 60, 47, 100, 105, 118, 62, 10>>, <<32, 32, 122, 10>>, <<10>> }
-            [] name = "fullF" -> { <<91, 97, 10>>, <<33, 91, 97, 10>>, <<98, 93, 10>>, <<98, 93, 91, 93, 10>>, <<98, 93, 10, 10, 91, 97, 32, 98, 93, 58, 32, 47, 117, 10>>, <<98, 93, 91, 93, 10, 10, 91, 97, 32, 98, 93, 58, 32, 47, 117, 10>>, <<91, 120, 93, 40, 47, 112, 92, 92, 92, 40, 113, 32, 34, 116, 92, 92, 92, 42, 117, 32, 92, 38, 97, 109, 112, 59, 34, 41, 10>>, <<91, 101, 93, 58, 32, 60, 47, 112, 92, 92, 92, 40, 113, 62, 32, 34, 120, 92, 92, 92, 42, 121, 32, 92, 38, 97, 109, 112, 59, 34, 10>>, <<91, 120, 93, 91, 101, 93, 32, 91, 101, 93, 10>>, <<62, 32, 91, 97, 10>>, <<62, 32, 33, 91, 97, 10>>, <<62, 32, 98, 93, 10>>, <<62, 32, 98, 93, 91, 93, 10>>, <<62, 32, 98, 93, 10, 10, 91, 97, 32, 98, 93, 58, 32, 47, 117, 10>>, <<62, 32, 98, 93, 91, 93, 10, 10, 91, 97, 32, 98, 93, 58, 32, 47, 117, 10>>, <<62, 32, 91, 120, 93, 40, 47, 112, 92, 92, 92, 40, 113, 32, 34, 116, 92, 92, 92, 42, 117, 32, 92, 38, 97, 109, 112, 59, 34, 41, 10>>, <<62, 32, 91, 101, 93, 58, 32, 60, 47, 112, 92, 92, 92, 40, 113, 62, 32, 34, 120, 92, 92, 92, 42, 121, 32, 92, 38, 97, 109, 112, 59, 34, 10>>, <<62, 32, 91, 120, 93, 91, 101, 93, 32, 91, 101, 93, 10>>, <<45, 32, 91, 97, 10>>, <<45, 32, 33, 91, 97, 10>>, <<45, 32, 98, 93, 10>>, <<45, 32, 98, 93, 91, 93, 10>>, <<45, 32, 98, 93, 10, 10, 91, 97, 32, 98, 93, 58, 32, 47, 117, 10>>, <<45, 32, 98, 93, 91, 93, 10, 10, 91, 97, 32, 98, 93, 58, 32, 47, 117, 10>>, <<45, 32, 91, 120, 93, 40, 47, 112, 92, 92, 92, 40, 113, 32, 34, 116, 92, 92, 92, 42, 117, 32, 92, 38, 97, 109, 112, 59, 34, 41, 10>>, <<45, 32, 91, 101, 93, 58, 32, 60, 47, 112, 92, 92, 92, 40, 113, 62, 32, 34, 120, 92, 92, 92, 42, 121, 32, 92, 38, 97, 109, 112, 59, 34, 10>>, <<45, 32, 91, 120, 93, 91, 101, 93, 32, 91, 101, 93, 10>>, <<32, 32, 91, 97, 10>>, <<32, 32, 33, 91, 97, 10>>, <<32, 32, 98, 93, 10>>, <<32, 32, 98, 93, 91, 93, 10>>, <<32, 32, 98, 93, 10, 10, 91, 97, 32, 98, 93, 58, 32, 47, 117, 10>>, <<32, 32, 98, 93, 91, 93, 10, 10, 91, 97, 32, 98, 93, 58, 32, 47, 117, 10>>, <<32, 32, 91, 120, 93, 40, 47, 112, 92, 92, 92, 40, 113, 32, 34, 116, 92, 92, 92, 42, 117, 32, 92, 38, 97, 109, 112, 59, 34, 41, 10>>, <<32, 32, 91, 101, 93, 58, 32, 60, 47, 112, 92, 92, 92, 40, 113, 62, 32, 34, 120, 92, 92, 92, 42, 121, 32, 92, 38, 97, 109, 112, 59, 34, 10>>, <<32, 32, 91, 120, 93, 91, 101, 93, 32, 91, 101, 93, 10>>, <<10>>, <<91, 97, 32, 98, 93, 58, 32, 47, 117, 10>> }
+            [] name = "fullF" -> { <<91, 97, 10>>, <<33, 91, 97, 10>>, <<98, 93, 10>>, <<98, 93, 91, 93, 10>>, <<98, 93, 10, 10, 91, 97, 32, 98, 93, 58, 32, 47, 117, 10>>, <<98, 93, 91, 93, 10, 10, 91, 97, 32, 98, 93, 58, 32, 47, 117, 10>>, <<91, 120, 93, 40, 47, 112, 92, 92, 92, 40, 113, 32, 34, 116, 92, 92, 92, 42, 117, 32, 92, 38, 97, 109, 112, 59, 34, 41, 10>>, <<91, 101, 93, 58, 32, 60, 47, 112, 92, 92, 92, 40, 113, 62, 32, 34, 120, 92, 92, 92, 42, 121, 32, 92, 38, 97, 109, 112, 59, 34, 10>>, <<91, 120, 93, 91, 101, 93, 32, 91, 101, 93, 10>>, <<91, 99, 93, 58, 32, 47, 117, 10, 91, 120, 93, 91, 99, 10>>, <<91, 99, 93, 58, 32, 47, 117, 10, 33, 91, 120, 93, 91, 99, 32, 10>>, <<93, 10>>, <<93, 32, 122, 10>>, <<62, 32, 91, 97, 10>>, <<62, 32, 33, 91, 97, 10>>, <<62, 32, 98, 93, 10>>, <<62, 32, 98, 93, 91, 93, 10>>, <<62, 32, 98, 93, 10, 10, 91, 97, 32, 98, 93, 58, 32, 47, 117, 10>>, <<62, 32, 98, 93, 91, 93, 10, 10, 91, 97, 32, 98, 93, 58, 32, 47, 117, 10>>, <<62, 32, 91, 120, 93, 40, 47, 112, 92, 92, 92, 40, 113, 32, 34, 116, 92, 92, 92, 42, 117, 32, 92, 38, 97, 109, 112, 59, 34, 41, 10>>, <<62, 32, 91, 101, 93, 58, 32, 60, 47, 112, 92, 92, 92, 40, 113, 62, 32, 34, 120, 92, 92, 92, 42, 121, 32, 92, 38, 97, 109, 112, 59, 34, 10>>, <<62, 32, 91, 120, 93, 91, 101, 93, 32, 91, 101, 93, 10>>, <<62, 32, 91, 99, 93, 58, 32, 47, 117, 10, 91, 120, 93, 91, 99, 10>>, <<62, 32, 91, 99, 93, 58, 32, 47, 117, 10, 33, 91, 120, 93, 91, 99, 32, 10>>, <<62, 32, 93, 10>>, <<62, 32, 93, 32, 122, 10>>, <<45, 32, 91, 97, 10>>, <<45, 32, 33, 91, 97, 10>>, <<45, 32, 98, 93, 10>>, <<45, 32, 98, 93, 91, 93, 10>>, <<45, 32, 98, 93, 10, 10, 91, 97, 32, 98, 93, 58, 32, 47, 117, 10>>, <<45, 32, 98, 93, 91, 93, 10, 10, 91, 97, 32, 98, 93, 58, 32, 47, 117, 10>>, <<45, 32, 91, 120, 93, 40, 47, 112, 92, 92, 92, 40, 113, 32, 34, 116, 92, 92, 92, 42, 117, 32, 92, 38, 97, 109, 112, 59, 34, 41, 10>>, <<45, 32, 91, 101, 93, 58, 32, 60, 47, 112, 92, 92, 92, 40, 113, 62, 32, 34, 120, 92, 92, 92, 42, 121, 32, 92, 38, 97, 109, 112, 59, 34, 10>>, <<45, 32, 91, 120, 93, 91, 101, 93, 32, 91, 101, 93, 10>>, <<45, 32, 91, 99, 93, 58, 32, 47, 117, 10, 91, 120, 93, 91, 99, 10>>, <<45, 32, 91, 99, 93, 58, 32, 47, 117, 10, 33, 91, 120, 93, 91, 99, 32, 10>>, <<45, 32, 93, 10>>, <<45, 32, 93, 32, 122, 10>>, <<32, 32, 91, 97, 10>>, <<32, 32, 33, 91, 97, 10>>, <<32, 32, 98, 93, 10>>, <<32, 32, 98, 93, 91, 93, 10>>, <<32, 32, 98, 93, 10, 10, 91, 97, 32, 98, 93, 58, 32, 47, 117, 10>>, <<32, 32, 98, 93, 91, 93, 10, 10, 91, 97, 32, 98, 93, 58, 32, 47, 117, 10>>, <<32, 32, 91, 120, 93, 40, 47, 112, 92, 92, 92, 40, 113, 32, 34, 116, 92, 92, 92, 42, 117, 32, 92, 38, 97, 109, 112, 59, 34, 41, 10>>, <<32, 32, 91, 101, 93, 58, 32, 60, 47, 112, 92, 92, 92, 40, 113, 62, 32, 34, 120, 92, 92, 92, 42, 121, 32, 92, 38, 97, 109, 112, 59, 34, 10>>, <<32, 32, 91, 120, 93, 91, 101, 93, 32, 91, 101, 93, 10>>, <<32, 32, 91, 99, 93, 58, 32, 47, 117, 10, 91, 120, 93, 91, 99, 10>>, <<32, 32, 91, 99, 93, 58, 32, 47, 117, 10, 33, 91, 120, 93, 91, 99, 32, 10>>, <<32, 32, 93, 10>>, <<32, 32, 93, 32, 122, 10>>, <<10>>, <<91, 97, 32, 98, 93, 58, 32, 47, 117, 10>> }
             [] name = "fullG" -> { <<91, 97, 93, 40, 60, 98, 92, 10>>, <<99, 62, 41, 10>>, <<91, 97, 93, 40, 47, 117, 32, 34, 116, 92, 10>>, <<117, 34, 41, 10>>, <<91, 97, 93, 40, 47, 117, 92, 10>>, <<41, 10>>, <<91, 97, 92, 10>>, <<98, 93, 10>>, <<98, 93, 58, 32, 47, 117, 10>>, <<60, 97, 32, 98, 61, 34, 99, 92, 10>>, <<100, 34, 62, 10>>, <<96, 97, 92, 10>>, <<98, 96, 10>>, <<60, 104, 116, 116, 112, 58, 47, 47, 97, 92, 10>>, <<98, 62, 10>>, <<91, 120, 93, 58, 32, 60, 117, 92, 10>>, <<118, 62, 10>>, <<91, 120, 93, 58, 32, 47, 117, 32, 39, 116, 92, 10>>, <<119, 39, 10>>, <<91, 120, 93, 58, 32, 47, 117, 92, 10>>, <<91, 120, 93, 10>>, <<62, 32, 91, 97, 93, 40, 60, 98, 92, 10>>, <<62, 32, 99, 62, 41, 10>>, <<62, 32, 91, 97, 93, 40, 47, 117, 32, 34, 116, 92, 10>>, <<62, 32, 117, 34, 41, 10>>, <<62, 32, 91, 97, 93, 40, 47, 117, 92, 10>>, <<62, 32, 41, 10>>, <<62, 32, 91, 97, 92, 10>>, <<62, 32, 98, 93, 10>>, <<62, 32, 98, 93, 58, 32, 47, 117, 10>>, <<62, 32, 60, 97, 32, 98, 61, 34, 99, 92, 10>>, <<62, 32, 100, 34, 62, 10>>, <<62, 32, 96, 97, 92, 10>>, <<62, 32, 98, 96, 10>>, <<62, 32, 60, 104, 116, 116, 112, 58, 47, 47, 97, 92, 10>>, <<62, 32, 98, 62, 10>>, <<62, 32, 91, 120, 93, 58, 32, 60, 117, 92, 10>>, <<62, 32, 118, 62, 10>>, <<62, 32, 91, 120, 93, 58, 32, 47, 117, 32, 39, 116, 92, 10>>, <<62, 32, 119, 39, 10>>, <<62, 32, 91, 120, 93, 58, 32, 47, 117, 92, 10>>, <<62, 32, 91, 120, 93, 10>>, <<45, 32, 91, 97, 93, 40, 60, 98, 92, 10>>, <<45, 32, 99, 62, 41, 10>>, <<45, 32, 91, 97, 93, 40, 47, 117, 32, 34, 116, 92, 10>>, <<45, 32, 117, 34, 41, 10>>, <<45, 32, 91, 97, 93, 40, 47, 117, 92, 10>>, <<45, 32, 41, 10>>, <<45, 32, 91, 97, 92, 10>>, <<45, 32, 98, 93, 10>>, <<45, 32, 98, 93, 58, 32, 47, 117, 10>>, <<45, 32, 60, 97, 32, 98, 61, 34, 99, 92, 10>>, <<45, 32, 100, 34, 62, 10>>, <<45, 32, 96, 97, 92, 10>>, <<45, 32, 98, 96, 10>>, <<45, 32, 60, 104, 116, 116, 112, 58, 47, 47, 97, 92, 10>>, <<45, 32, 98, 62, 10>>, <<45, 32, 91, 120, 93, 58, 32, 60, 117, 92, 10>>, <<45, 32, 118, 62, 10>>, <<45, 32, 91, 120, 93, 58, 32, 47, 117, 32, 39, 116, 92, 10>>, <<45, 32, 119, 39, 10>>, <<45, 32, 91, 120, 93, 58, 32, 47, 117, 92, 10>>, <<45, 32, 91, 120, 93, 10>>, <<10>> }
             [] name = "fullN" -> { <<97, 0, 98, 10>>, <<0, 10>>, <<42, 0, 42, 10>>, <<95, 0, 95, 97, 10>>, <<91, 0, 93, 58, 32, 47, 117, 10>>, <<91, 120, 93, 91, 0, 93, 10>>, <<96, 0, 96, 10>>, <<35, 32, 0, 10>>, <<96, 96, 96, 0, 10>>, <<60, 0, 62, 10>>, <<60, 97, 32, 0, 62, 10>>, <<38, 35, 48, 59, 32, 38, 35, 120, 48, 59, 10>>, <<91, 121, 93, 40, 47, 0, 32, 34, 0, 34, 41, 10>>, <<0, 61, 61, 61, 10>>, <<62, 32, 97, 0, 98, 10>>, <<62, 32, 0, 10>>, <<62, 32, 42, 0, 42, 10>>, <<62, 32, 95, 0, 95, 97, 10>>, <<62, 32, 91, 0, 93, 58, 32, 47, 117, 10>>, <<62, 32, 91, 120, 93, 91, 0, 93, 10>>, <<62, 32, 96, 0, 96, 10>>, <<62, 32, 35, 32, 0, 10>>, <<62, 32, 96, 96, 96, 0, 10>>, <<62, 32, 60, 0, 62, 10>>, <<62, 32, 60, 97, 32, 0, 62, 10>>, <<62, 32, 38, 35, 48, 59, 32, 38, 35, 120, 48, 59, 10>>, <<62, 32, 91, 121, 93, 40, 47, 0, 32, 34, 0, 34, 41, 10>>, <<62, 32, 0, 61, 61, 61, 10>>, <<45, 32, 97, 0, 98, 10>>, <<45, 32, 0, 10>>, <<45, 32, 42, 0, 42, 10>>, <<45, 32, 95, 0, 95, 97, 10>>, <<45, 32, 91, 0, 93, 58, 32, 47, 117, 10>>, <<45, 32, 91, 120, 93, 91, 0, 93, 10>>, <<45, 32, 96, 0, 96, 10>>, <<45, 32, 35, 32, 0, 10>>, <<45, 32, 96, 96, 96, 0, 10>>, <<45, 32, 60, 0, 62, 10>>, <<45, 32, 60, 97, 32, 0, 62, 10>>, <<45, 32, 38, 35, 48, 59, 32, 38, 35, 120, 48, 59, 10>>, <<45, 32, 91, 121, 93, 40, 47, 0, 32, 34, 0, 34, 41, 10>>, <<45, 32, 0, 61, 61, 61, 10>>, <<10>>, <<32, 32, 32, 32, 0, 10>>, <<61, 61, 61, 10>> }
             [] name = "fullDcr" -> { <<97, 32, 42, 98, 13>>, <<99, 42, 13>>, <<96, 99, 13>>, <<100, 96, 13>>, <<91, 120, 93, 40, 47, 117, 13>>, <<39, 116, 39, 41, 13>>, <<97, 92, 13>>, <<98, 32, 32, 13>>, <<91, 120, 93, 91, 97, 13>>, <<98, 93, 13>>, <<91, 97, 13>>, <<98, 93, 58, 32, 47, 117, 13>>, <<62, 9, 97, 32, 42, 98, 13>>, <<62, 9, 99, 42, 13>>, <<62, 9, 96, 99, 13>>, <<62, 9, 100, 96, 13>>, <<62, 9, 91, 120, 93, 40, 47, 117, 13>>, <<62, 9, 39, 116, 39, 41, 13>>, <<62, 9, 97, 92, 13>>, <<62, 9, 98, 32, 32, 13>>, <<62, 9, 91, 120, 93, 91, 97, 13>>, <<62, 9, 98, 93, 13>>, <<62, 9, 91, 97, 13>>, <<62, 9, 98, 93, 58, 32, 47, 117, 13>>, <<45, 9, 97, 32, 42, 98, 13>>, <<45, 9, 99, 42, 13>>, <<45, 9, 96, 99, 13>>, <<45, 9, 100, 96, 13>>, <<45, 9, 91, 120, 93, 40, 47, 117, 13>>, <<45, 9, 39, 116, 39, 41, 13>>, <<45, 9, 97, 92, 13>>, <<45, 9, 98, 32, 32, 13>>, <<45, 9, 91, 120, 93, 91, 97, 13>>, <<45, 9, 98, 93, 13>>, <<45, 9, 91, 97, 13>>, <<45, 9, 98, 93, 58, 32, 47, 117, 13>>, <<9, 97, 32, 42, 98, 13>>, <<9, 99, 42, 13>>, <<9, 96, 99, 13>>, <<9, 100, 96, 13>>, <<9, 91, 120, 93, 40, 47, 117, 13>>, <<9, 39, 116, 39, 41, 13>>, <<9, 97, 92, 13>>, <<9, 98, 32, 32, 13>>, <<9, 91, 120, 93, 91, 97, 13>>, <<9, 98, 93, 13>>, <<9, 91, 97, 13>>, <<9, 98, 93, 58, 32, 47, 117, 13>>, <<32, 9, 97, 32, 42, 98, 13>>, <<32, 9, 99, 42, 13>>, <<32, 9, 96, 99, 13>>, <<32, 9, 100, 96, 13>>, <<32, 9, 91, 120, 93, 40, 47, 117, 13>>, <<32, 9, 39, 116, 39, 41, 13>>, <<32, 9, 97, 92, 13>>, <<32, 9, 98, 32, 32, 13>>, <<32, 9, 91, 120, 93, 91, 97, 13>>, <<32, 9, 98, 93, 13>>, <<32, 9, 91, 97, 13>>, <<32, 9, 98, 93, 58, 32, 47, 117, 13>>, <<62, 32, 97, 32, 42, 98, 13>>, <<62, 32, 99, 42, 13>>, <<62, 32, 96, 99, 13>>, <<62, 32, 100, 96, 13>>, <<62, 32, 91, 120, 93, 40, 47, 117, 13>>, <<62, 32, 39, 116, 39, 41, 13>>, <<62, 32, 97, 92, 13>>, <<62, 32, 98, 32, 32, 13>>, <<62, 32, 91, 120, 93, 91, 97, 13>>, <<62, 32, 98, 93, 13>>, <<62, 32, 91, 97, 13>>, <<62, 32, 98, 93, 58, 32, 47, 117, 13>>, <<13>> }
